@@ -57,3 +57,22 @@ def c06(ctx):
 def c03(ctx):
     return seq_container(ctx, "heap", "HeapTrace", [("HeapMC", "HeapMC.cfg")],
                          depth=dict(quick=3, thorough=4), shards=12)
+
+
+@handler("C04")
+def c04(ctx):
+    return seq_container(ctx, "bstree", "BsTreeTrace", [("BsTreeMC", "BsTreeMC.cfg")],
+                         depth=dict(quick=5, thorough=6), shards=12,
+                         kf_controls=[("BsTreeMC", "BsTreeMC_kf.cfg", "SizeIsCount")])
+
+
+@handler("C10")
+def c10(ctx):
+    return seq_container(ctx, "btree", "BTreeTrace", [("BTreeMC", "BTreeMC.cfg")],
+                         depth=dict(quick=5, thorough=6), shards=12)
+
+
+@handler("C07")
+def c07(ctx):
+    return seq_container(ctx, "lru", "LRUTrace", [("LRUMC", "LRUMC.cfg")],
+                         depth=dict(quick=4, thorough=5), shards=12)
